@@ -31,6 +31,18 @@ CHECKS = {
  "C02": dict(cat="exploration", engine="A", technique=ENGINE_A,
    text="Task-tree programs in which body/children raise (Exception and BaseException subclasses; before, during, after cancellation; from cleanup), nested groups, start()-children failing while unwinding after their starter was cancelled; all placements of environment actions; oracle: flattened leaves of the raised group == multiset of non-cancellation exceptions that ended body and members, no cancellation leaves, nothing raised when nothing failed, remaining members interrupted at their checkpoints.",
    note="Trusted: VLoop batching model; scope reference semantics (mc/refsem.py) for the 'remaining tasks are cancelled' clause."),
+ "C03": dict(cat="exploration", engine="A", technique=ENGINE_A,
+   text="~1000 generated scope-tree and task-tree programs (3 nested scopes x all shield assignments, blocked / runnable / catch-and-block-again / shielded-cleanup bodies, cancel by the task itself, siblings, environment; shields toggled under a cancelled ancestor; scope cancelled before entry; tasks spawned into cancelled groups) x every placement of cancel()/set() callbacks; oracle: independent effective-cancellation relation on the log - checkpoints begun in a cancelled scope raise, blocked waits are interrupted within 5 loop iterations unless their gate was set first; deadlock and livelock detection by the virtual loop.",
+   note="Trusted: VLoop batching model (stock + eager); liveness judged as bounded latency (<=5 iterations) + idle/horizon detection; uvloop not explored."),
+ "C04": dict(cat="exploration", engine="A", technique=ENGINE_A,
+   text="Scope-tree family plus native-cancel / ordinary-exception crossings; reference semantics evaluated on the log: a cancellation is received only where a cancelled scope is visible without crossing a shield, and at every scope exit absorb <=> own cancel and no visible cancelled encloser, cancelled_caught <=> absorbed, everything else passes through (also inside exception groups).",
+   note="Trusted: VLoop batching model; cancel instants of library-internal cancels (failing child) are modelled as a window and exits falling into the window accept both outcomes."),
+ "C05": dict(cat="exploration", engine="A", technique=ENGINE_A,
+   text="Scope-tree family plus residue programs (1-3 re-deliveries, cancellation handled by the body, nested hand-over of the uncancel count, asyncio.timeout around/inside/after scopes, asyncio.TaskGroup afterwards, deadlines left early / re-armed); oracle: Task.cancelling() at exit == at entry when no encloser is cancelled, later awaits undisturbed, native constructs fire iff their own deadline passed, loop idle within 8 iterations and no live timer after the program.",
+   note="Trusted: VLoop batching model and virtual clock; per-program execution cap 20000 in quick tier (capped programs are reported, exhaustive=false)."),
+ "C07": dict(cat="exploration", engine="A", technique=ENGINE_A,
+   text="168 start() programs (14 child behaviours x caller in body / sibling, each in its own scope, catching or not x cancel caller / group / none) x every placement of the environment actions; oracle from the order of started(), child end and start() return in the log (value only after started(), child's own exception otherwise without cancelling the group, child ended before a cancelled start() re-raises, later errors surface, second started() refused) plus the C02 leaf oracle.",
+   note="Trusted: VLoop batching model."),
 }
 
 def main():
